@@ -234,6 +234,76 @@ theorem C07_eventually_partial {c : Cfg} {a a' : ANode} (h : Nat)
     h ≤ (runOps a' [.incl]).daInc :=
   C07_eventually_after_clean_restart h hr hst hm
 
+/-! ## initial heights above 1 (model-level observation, exposed by the repair of C06 in /repo 6924f89) -/
+
+/-- full statement of "eventually", every initial height ≥ 1: on a node reached from a fresh start, if every committed
+height `initialHeight ≤ k ≤ h` is stored with its header hash marked and its data commitment empty or marked, one
+iteration of the inclusion loop reports `≥ h` -/
+def C07_eventually_initial_height_full : Prop :=
+  ∀ (c : Cfg) (acts : List Act) (h : Nat), 1 ≤ c.initialHeight →
+    (∀ k, c.initialHeight ≤ k → k ≤ h → k ≤ (runA c { n := freshNode c } acts).n.store.height ∧
+      ∃ b, (runA c { n := freshNode c } acts).n.store.getBlock k = some b ∧
+        (markOf (runA c { n := freshNode c } acts).hMarks b.sh.hdr.hash).isSome ∧
+        (b.data.daCommitment = emptyDataHash ∨
+          (markOf (runA c { n := freshNode c } acts).dMarks b.data.daCommitment).isSome)) →
+    h ≤ (includerIter (runA c { n := freshNode c } acts)).1.daInc
+
+/-- **With an initial height above 1 the DA-included height never leaves 0**: `daIncludedHeight` starts at 0 (only the
+two submission watermarks were moved to `initialHeight − 1`), so the inclusion loop asks `IsDAIncluded(1)`; the chain
+height is ≥ 1 but block 1 does not exist, `GetBlockData` fails and the loop stops ("no more blocks to check") — for every
+interleaving of production, submission (any DA answers) and inclusion passes, for ever
+(`block/da_includer.go:23-30`, `block/manager.go:488-499`).  Before the repair nothing was ever submitted on such a
+chain, so this could not be observed.  Model-level; to be replayed on the real node before it is recorded. -/
+theorem C07_initial_height_above_one_never_reports (c : Cfg) (hih : 2 ≤ c.initialHeight) (acts : List Act) :
+    (runA c { n := freshNode c } acts).daInc = 0 ∧
+    includerIter (runA c { n := freshNode c } acts) = (runA c { n := freshNode c } acts, []) :=
+  ⟨((NoIncl.fresh c hih).run acts).inc, ((NoIncl.fresh c hih).run acts).idle⟩
+
+def v3Cfg : Cfg := { chainId := "w", initialHeight := 3, genesisTime := 100, proposerAddr := [1], key := 1, signerAddr := [1] }
+/-- initial height 3: two blocks (3: the genesis block, 4: one transaction), all headers and data accepted -/
+def v3Acts : List Act :=
+  [.produce (.batch [] 150 []) .ok, .produce (.batch [[1]] 200 []) .ok, .subH [], .subD []]
+
+/-- the witness, evaluated by the kernel: watermarks 4/4 at chain height 4, both blocks on the DA layer and marked -/
+theorem v3_facts : (runA v3Cfg { n := freshNode v3Cfg } v3Acts).n.store.height = 4 ∧
+    (runA v3Cfg { n := freshNode v3Cfg } v3Acts).n.hdrWm = 4 ∧ (runA v3Cfg { n := freshNode v3Cfg } v3Acts).n.dataWm = 4 ∧
+    onDA (runA v3Cfg { n := freshNode v3Cfg } v3Acts) 3 = true ∧ onDA (runA v3Cfg { n := freshNode v3Cfg } v3Acts) 4 = true ∧
+    ∀ k ∈ [3, 4], ((runA v3Cfg { n := freshNode v3Cfg } v3Acts).n.store.getBlock k).map (fun b =>
+      (markOf (runA v3Cfg { n := freshNode v3Cfg } v3Acts).hMarks b.sh.hdr.hash).isSome &&
+      (decide (b.data.daCommitment = emptyDataHash) ||
+        (markOf (runA v3Cfg { n := freshNode v3Cfg } v3Acts).dMarks b.data.daCommitment).isSome)) = some true := by
+  decide +kernel
+
+/-- **The full statement is false of the model** (initial height 3). -/
+theorem C07_eventually_initial_height_fails : ¬ C07_eventually_initial_height_full := by
+  intro hfull
+  obtain ⟨h1, _, _, _, _, h6⟩ := v3_facts
+  have := hfull v3Cfg v3Acts 4 (by decide) (fun k k1 k2 => by
+    have k1' : 3 ≤ k := k1
+    have hk : k ∈ [3, 4] := by simp; omega
+    have r2 := h6 k hk
+    refine ⟨by rw [h1]; exact k2, ?_⟩
+    cases hb : (runA v3Cfg { n := freshNode v3Cfg } v3Acts).n.store.getBlock k with
+    | none => rw [hb] at r2; simp at r2
+    | some b =>
+      rw [hb] at r2
+      simp only [Option.map_some, Option.some.injEq, Bool.and_eq_true, Bool.or_eq_true, decide_eq_true_eq] at r2
+      exact ⟨b, rfl, r2.1, r2.2⟩)
+  rw [(C07_initial_height_above_one_never_reports v3Cfg (by decide) v3Acts).2] at this
+  have h0 := (C07_initial_height_above_one_never_reports v3Cfg (by decide) v3Acts).1
+  simp only at this
+  omega
+
+/-- **Partial statement** (everything except the refuted case): initial height 1 -/
+theorem C07_eventually_initial_height_partial (c : Cfg) (h1 : c.initialHeight = 1) (acts : List Act) (h : Nat)
+    (hm : ∀ k, c.initialHeight ≤ k → k ≤ h → k ≤ (runA c { n := freshNode c } acts).n.store.height ∧
+      ∃ b, (runA c { n := freshNode c } acts).n.store.getBlock k = some b ∧
+        (markOf (runA c { n := freshNode c } acts).hMarks b.sh.hdr.hash).isSome ∧
+        (b.data.daCommitment = emptyDataHash ∨
+          (markOf (runA c { n := freshNode c } acts).dMarks b.data.daCommitment).isSome)) :
+    h ≤ (includerIter (runA c { n := freshNode c } acts)).1.daInc :=
+  C07_eventually _ h (fun k k1 k2 => hm k (by omega) k2)
+
 /-! ## non-vacuity -/
 
 /-- the hypotheses of `C07_eventually` hold of the node with everything submitted (`h = 3`) -/
